@@ -467,7 +467,7 @@ impl Prop for Sorting {
         "one case = one array (length 0-300, concentrated around the multiples of the prelude's 32-element runs) of ints / strings / floats for `sort`, or of (key, original index) pairs / structs for `sort_by` (<=, >=, <, >) and `sort_by_key` (key, key / 4, string key), keys from {0..1, 0..3, 0..n/4, full range}, arranged random / ascending / descending / organ-pipe / nearly sorted; the printed result must be ordered under the given comparison, a permutation of the input, and (reflexive comparisons, sort_by and sort_by_key) keep equal keys in ascending original index; non-trivial = length >= 33 with two equal keys that start in different 32-element runs; distinct by the whole case"
     }
     fn n_cases(&self, tier: Tier) -> u32 {
-        tier.pick(3500, 35000)
+        tier.pick(6000, 60000)
     }
     fn strategy(&self, _tier: Tier, _f: &Findings) -> BoxedStrategy<Self::Case> {
         proptest::collection::vec(case_strategy(), 1..=8).boxed()
